@@ -115,6 +115,27 @@ Proof.
   - exact (IH HF' Hin).
 Qed.
 
+(* ---------- joins (string separator) ---------- *)
+Lemma joins_cons2 sep f g fs : joins sep (f :: g :: fs) = f ++ sep ++ joins sep (g :: fs).
+Proof. reflexivity. Qed.
+
+Lemma joins_single c fs : joins [c] fs = join c fs.
+Proof.
+  induction fs as [|f fs IH]; [reflexivity|]. destruct fs as [|g fs]; [reflexivity|].
+  rewrite joins_cons2, IH. reflexivity.
+Qed.
+
+Lemma joins_notin sep c fs :
+  ~ In c sep -> Forall (fun f => ~ In c f) fs -> ~ In c (joins sep fs).
+Proof.
+  intros Hc. induction fs as [|f fs IH]; intros HF; [intros []|].
+  inversion HF as [|? ? Hf HF']; subst.
+  destruct fs as [|g fs]; [exact Hf|].
+  rewrite joins_cons2.
+  intros Hin. apply in_app_or in Hin. destruct Hin as [Hin|Hin]; [exact (Hf Hin)|].
+  apply in_app_or in Hin. destruct Hin as [Hin|Hin]; [exact (Hc Hin)|exact (IH HF' Hin)].
+Qed.
+
 (* ---------- strip ---------- *)
 Definition first_ok (l : str) : Prop := exists c r, l = c :: r /\ is_ws c = false.
 Definition last_ok (l : str) : Prop := exists c r, l = r ++ [c] /\ is_ws c = false.
@@ -160,6 +181,25 @@ Proof.
   { apply IH; [discriminate|exact Hl]. }
   exists c, (f ++ sep :: r). split; [|exact H].
   rewrite E. rewrite <- app_assoc. reflexivity.
+Qed.
+
+Lemma first_ok_joins sep f fs : first_ok f -> first_ok (joins sep (f :: fs)).
+Proof.
+  intros (c & r & -> & H). destruct fs as [|g fs].
+  - exists c, r. split; [reflexivity|exact H].
+  - rewrite joins_cons2.
+    exists c, (r ++ sep ++ joins sep (g :: fs)). split; [reflexivity|exact H].
+Qed.
+
+Lemma last_ok_joins sep fs : fs <> [] -> last_ok (last fs []) -> last_ok (joins sep fs).
+Proof.
+  induction fs as [|f fs IH]; intros Hne Hl; [congruence|].
+  destruct fs as [|g fs]; [exact Hl|].
+  rewrite joins_cons2.
+  assert (last_ok (joins sep (g :: fs))) as (c & r & E & H).
+  { apply IH; [discriminate|exact Hl]. }
+  exists c, (f ++ sep ++ r). split; [|exact H].
+  rewrite <- !app_assoc. do 2 f_equal. exact E.
 Qed.
 
 (* ---------- prefix ---------- *)
@@ -239,7 +279,7 @@ Proof.
 Qed.
 
 (* ---------- convert_line ---------- *)
-Definition field_ok (f : str) : Prop := ~ In TAB f /\ ~ In NL f.
+Definition field_ok (sepc : Z) (f : str) : Prop := ~ In sepc f /\ ~ In NL f.
 
 Lemma pyslice_mid {A} (a b c : list A) :
   pyslice (a ++ b ++ c) (length a) (length a + length b) = b.
@@ -249,13 +289,13 @@ Proof.
   rewrite firstn_app_2. simpl. apply app_nil_r.
 Qed.
 
-Lemma convert_line_ok (pre prots post : list str) idx ncol :
-  Forall (fun f => ~ In TAB f) (pre ++ prots ++ post) ->
+Lemma convert_line_ok sepc sepp (pre prots post : list str) idx ncol :
+  Forall (fun f => ~ In sepc f) (pre ++ prots ++ post) ->
   length pre = idx -> prots <> [] -> ncol = (idx + 1 + length post)%nat ->
-  convert_line (join TAB (pre ++ prots ++ post)) idx ncol
-  = join TAB (pre ++ [join COLON prots] ++ post).
+  convert_line_sep sepc sepp (join sepc (pre ++ prots ++ post)) idx ncol
+  = join sepc (pre ++ [joins sepp prots] ++ post).
 Proof.
-  intros HF Hpre Hne Hncol. unfold convert_line. cbv zeta.
+  intros HF Hpre Hne Hncol. unfold convert_line_sep. cbv zeta.
   rewrite split_join; [|exact HF| destruct pre; [destruct prots; [congruence|discriminate]|discriminate]].
   assert (length prots <> 0)%nat as Hlp by (destruct prots; [congruence|simpl; lia]).
   rewrite !app_length.
@@ -272,23 +312,38 @@ Proof.
 Qed.
 
 (* ---------- whole-file theorems ---------- *)
-Definition wf_row (p : pin) (r : pinrow) : Prop :=
-  Forall field_ok (pre r ++ prots r ++ post r) /\
+(* [wf sepc p]: the structured document p, written with column separator sepc, is a PIN:
+   no field contains sepc or NL; every row has the header's columns and at least one protein;
+   the first and last character of every line survive strip(); the header has no column
+   "Proteins" before the protein column; the first PSM line does not start with
+   "DefaultDirection"; the optional DefaultDirection line does. *)
+Definition wf_row (sepc : Z) (p : pin) (r : pinrow) : Prop :=
+  Forall (field_ok sepc) (pre r ++ prots r ++ post r) /\
   length (pre r) = length (hdr_pre p) /\ prots r <> [] /\
   length (post r) = length (hdr_post p) /\
   first_ok (hd [] (pre r ++ prots r)) /\ last_ok (last (prots r ++ post r) []).
 
-Definition wf (p : pin) : Prop :=
-  Forall field_ok (hdr p) /\ ~ In PROTEINS (hdr_pre p) /\
+Definition wf (sepc : Z) (p : pin) : Prop :=
+  Forall (field_ok sepc) (hdr p) /\ ~ In PROTEINS (hdr_pre p) /\
   first_ok (hd [] (hdr p)) /\ last_ok (last (hdr p) []) /\
-  Forall (wf_row p) (rows p) /\ rows p <> [] /\
+  Forall (wf_row sepc p) (rows p) /\ rows p <> [] /\
   match rows p with
-  | r :: _ => prefixb DEFAULTDIRECTION (hd [] (pre r ++ prots r)) = false
+  | r :: _ => prefixb DEFAULTDIRECTION (row_line sepc r) = false
   | [] => True
   end /\
   match dd p with
   | Some d => prefixb DEFAULTDIRECTION d = true /\ ~ In NL d /\ last_ok d
   | None => True
+  end.
+
+(* [out_ok sepc sepp p]: what the protein separator must satisfy for the OUTPUT to be a PIN
+   again: it contains neither the column separator nor NL, and joining the proteins of the
+   first PSM with it does not create a line starting with "DefaultDirection". *)
+Definition out_ok (sepc : Z) (sepp : str) (p : pin) : Prop :=
+  ~ In sepc sepp /\ ~ In NL sepp /\
+  match rows p with
+  | r :: _ => prefixb DEFAULTDIRECTION (row_tsv sepc sepp r) = false
+  | [] => True
   end.
 
 Definition line_ok (l : str) : Prop := ~ In NL l /\ first_ok l /\ last_ok l.
@@ -303,19 +358,19 @@ Proof.
   apply app_eq_nil in E. destruct E; congruence.
 Qed.
 
-Lemma fields_line_ok (fs : list str) :
-  Forall field_ok fs -> first_ok (hd [] fs) -> last_ok (last fs []) -> line_ok (join TAB fs).
+Lemma fields_line_ok sepc (fs : list str) : sepc <> NL ->
+  Forall (field_ok sepc) fs -> first_ok (hd [] fs) -> last_ok (last fs []) -> line_ok (join sepc fs).
 Proof.
-  intros HF Hf Hl.
+  intros Hs HF Hf Hl.
   assert (fs <> []) as Hne.
   { destruct fs; [|discriminate]. simpl in Hf. destruct Hf as (c & r & E & _). discriminate. }
   split; [|split].
-  - apply join_notin; [discriminate|]. eapply Forall_impl; [|exact HF]. intros f [_ H]; exact H.
+  - apply join_notin; [congruence|]. eapply Forall_impl; [|exact HF]. intros f [_ H]; exact H.
   - destruct fs as [|f fs]; [congruence|]. apply first_ok_join. exact Hf.
   - apply last_ok_join; assumption.
 Qed.
 
-Lemma row_fields_ok p r : wf_row p r ->
+Lemma row_fields_ok sepc p r : wf_row sepc p r ->
   first_ok (hd [] (pre r ++ prots r ++ post r)) /\ last_ok (last (pre r ++ prots r ++ post r) []).
 Proof.
   intros (HF & Hpre & Hne & Hpost & Hf & Hl). split.
@@ -324,34 +379,35 @@ Proof.
   - rewrite last_app_ne; [exact Hl|]. destruct (prots r); [congruence|discriminate].
 Qed.
 
-Lemma row_line_ok p r : wf_row p r -> line_ok (row_line r).
+Lemma row_line_ok sepc p r : sepc <> NL -> wf_row sepc p r -> line_ok (row_line sepc r).
 Proof.
-  intros H. destruct (row_fields_ok p r H) as [Hf Hl].
+  intros Hs H. destruct (row_fields_ok sepc p r H) as [Hf Hl].
   destruct H as (HF & _). apply fields_line_ok; assumption.
 Qed.
 
-Lemma tsv_fields_ok p r : wf_row p r ->
-  Forall field_ok (pre r ++ [join COLON (prots r)] ++ post r) /\
-  first_ok (hd [] (pre r ++ [join COLON (prots r)])) /\
-  last_ok (last ([join COLON (prots r)] ++ post r) []).
+Lemma tsv_fields_ok sepc sepp p r : ~ In sepc sepp -> ~ In NL sepp -> wf_row sepc p r ->
+  Forall (field_ok sepc) (pre r ++ [joins sepp (prots r)] ++ post r) /\
+  first_ok (hd [] (pre r ++ [joins sepp (prots r)])) /\
+  last_ok (last ([joins sepp (prots r)] ++ post r) []).
 Proof.
-  intros (HF & Hpre & Hne & Hpost & Hf & Hl).
+  intros Hsc Hsn (HF & Hpre & Hne & Hpost & Hf & Hl).
   apply Forall_app in HF. destruct HF as [HF1 HF23]. apply Forall_app in HF23. destruct HF23 as [HF2 HF3].
   split; [|split].
   - apply Forall_app; split; [exact HF1|]. apply Forall_app; split; [|exact HF3].
     constructor; [|constructor]. split.
-    + apply join_notin; [discriminate|]. eapply Forall_impl; [|exact HF2]. intros f [H _]; exact H.
-    + apply join_notin; [discriminate|]. eapply Forall_impl; [|exact HF2]. intros f [_ H]; exact H.
+    + apply joins_notin; [exact Hsc|]. eapply Forall_impl; [|exact HF2]. intros f [H _]; exact H.
+    + apply joins_notin; [exact Hsn|]. eapply Forall_impl; [|exact HF2]. intros f [_ H]; exact H.
   - destruct (pre r) as [|a pr]; [|exact Hf]. simpl in *.
-    destruct (prots r) as [|b ps]; [congruence|]. apply first_ok_join. exact Hf.
+    destruct (prots r) as [|b ps]; [congruence|]. apply first_ok_joins. exact Hf.
   - destruct (post r) as [|a po] eqn:Epo.
-    + simpl. rewrite app_nil_r in Hl. apply last_ok_join; assumption.
+    + simpl. rewrite app_nil_r in Hl. apply last_ok_joins; assumption.
     + rewrite last_app_ne by discriminate. rewrite last_app_ne in Hl by discriminate. exact Hl.
 Qed.
 
-Lemma wf_tsv_row p r : wf_row p r -> wf_row (tsv_pin p) (tsv_row r).
+Lemma wf_tsv_row sepc sepp p r : ~ In sepc sepp -> ~ In NL sepp ->
+  wf_row sepc p r -> wf_row sepc (tsv_pin sepp p) (tsv_row sepp r).
 Proof.
-  intros H. destruct (tsv_fields_ok p r H) as (HF & Hf & Hl).
+  intros Hsc Hsn H. destruct (tsv_fields_ok sepc sepp p r Hsc Hsn H) as (HF & Hf & Hl).
   destruct H as (_ & Hpre & Hne & Hpost & _ & _).
   unfold wf_row, tsv_row; simpl. repeat split; try assumption; discriminate.
 Qed.
@@ -383,24 +439,25 @@ Lemma with_nl_cons final_nl l ls : ls <> [] ->
   with_nl final_nl (l :: ls) = (l ++ [NL]) :: with_nl final_nl ls.
 Proof. destruct ls; [congruence|reflexivity]. Qed.
 
-Lemma header_ok p : wf p -> line_ok (join TAB (hdr p)).
-Proof. intros (HF & _ & Hf & Hl & _). apply fields_line_ok; assumption. Qed.
+Lemma header_ok sepc p : sepc <> NL -> wf sepc p -> line_ok (join sepc (hdr p)).
+Proof. intros Hs (HF & _ & Hf & Hl & _). apply fields_line_ok; assumption. Qed.
 
-Lemma parse_header_ok p : wf p ->
-  parse_header (join TAB (hdr p)) = Ok (length (hdr p), length (hdr_pre p)).
+Lemma parse_header_ok sepc p : sepc <> NL -> wf sepc p ->
+  parse_header_sep sepc (join sepc (hdr p)) = Ok (length (hdr p), length (hdr_pre p)).
 Proof.
-  intros Hwf. pose proof (header_ok p Hwf) as (_ & Hf & Hl).
+  intros Hs Hwf. pose proof (header_ok sepc p Hs Hwf) as (_ & Hf & Hl).
   destruct Hwf as (HF & Hnp & _).
-  unfold parse_header. rewrite strip_id by assumption.
+  unfold parse_header_sep. rewrite strip_id by assumption.
   rewrite split_join.
   - unfold hdr at 1. simpl. rewrite index_str_app by exact Hnp. reflexivity.
   - eapply Forall_impl; [|exact HF]. intros f [H _]; exact H.
   - unfold hdr. destruct (hdr_pre p); discriminate.
 Qed.
 
-Lemma convert_rows p : wf p ->
-  flat_map (fun l => convert_line l (length (hdr_pre p)) (length (hdr p)) ++ [NL]) (map row_line (rows p))
-  = flat_map (fun l => l ++ [NL]) (map row_tsv (rows p)).
+Lemma convert_rows sepc sepp p : wf sepc p ->
+  flat_map (fun l => convert_line_sep sepc sepp l (length (hdr_pre p)) (length (hdr p)) ++ [NL])
+           (map (row_line sepc) (rows p))
+  = flat_map (fun l => l ++ [NL]) (map (row_tsv sepc sepp) (rows p)).
 Proof.
   intros (_ & _ & _ & _ & HR & _). rewrite !flat_map_map.
   induction HR as [|r rs Hr HR IH]; [reflexivity|]. simpl. rewrite IH. f_equal. f_equal.
@@ -419,10 +476,10 @@ Proof.
   intros H. rewrite <- (flat_map_map strip F). rewrite strip_with_nl by exact H. reflexivity.
 Qed.
 
-Lemma rows_lines_ok p : wf p -> Forall line_ok (map row_line (rows p)).
+Lemma rows_lines_ok sepc p : sepc <> NL -> wf sepc p -> Forall line_ok (map (row_line sepc) (rows p)).
 Proof.
-  intros (_ & _ & _ & _ & HR & _). apply Forall_map.
-  eapply Forall_impl; [|exact HR]. intros r Hr. eapply row_line_ok; exact Hr.
+  intros Hs (_ & _ & _ & _ & HR & _). apply Forall_map.
+  eapply Forall_impl; [|exact HR]. intros r Hr. eapply row_line_ok; [exact Hs|exact Hr].
 Qed.
 
 Lemma line_ok_render l : line_ok l -> ~ In NL l /\ l <> [].
@@ -436,26 +493,26 @@ Proof.
 Qed.
 
 Local Arguments prefixb : simpl never.
-Local Arguments convert_line : simpl never.
+Local Arguments convert_line_sep : simpl never.
 Local Arguments strip : simpl never.
 
-Theorem convert_file_ok final_nl p : wf p ->
-  convert_file (render_pin final_nl p) = Ok (render_tsv p).
+Theorem convert_file_ok sepc sepp final_nl p : sepc <> NL -> wf sepc p ->
+  convert_file_sep sepc sepp (render_pin sepc final_nl p) = Ok (render_tsv sepc sepp p).
 Proof.
-  intros Hwf.
-  pose proof (header_ok p Hwf) as Hh.
-  pose proof (rows_lines_ok p Hwf) as HRL.
-  pose proof (parse_header_ok p Hwf) as HPH.
-  pose proof (convert_rows p Hwf) as HCR.
+  intros Hs Hwf.
+  pose proof (header_ok sepc p Hs Hwf) as Hh.
+  pose proof (rows_lines_ok sepc p Hs Hwf) as HRL.
+  pose proof (parse_header_ok sepc p Hs Hwf) as HPH.
+  pose proof (convert_rows sepc sepp p Hwf) as HCR.
   destruct Hwf as (HF & Hnp & Hf & Hl & HR & Hne & Hfirst & Hdd).
-  unfold convert_file, render_pin, render_tsv, tsv_lines.
-  assert (Forall line_ok (pin_lines p)) as HL.
+  unfold convert_file_sep, render_pin, render_tsv, tsv_lines.
+  assert (Forall line_ok (pin_lines sepc p)) as HL.
   { unfold pin_lines. constructor; [exact Hh|]. apply Forall_app. split; [|exact HRL].
     destruct (dd p) as [d|]; [|constructor]. destruct Hdd as (Hp & Hn & Hld).
     constructor; [|constructor]. apply dd_line_ok; assumption. }
   rewrite lines_render by (eapply Forall_impl; [|exact HL]; intros l; apply line_ok_render).
   unfold pin_lines in *.
-  assert (map row_line (rows p) <> []) as Hne' by (destruct (rows p); [congruence|discriminate]).
+  assert (map (row_line sepc) (rows p) <> []) as Hne' by (destruct (rows p); [congruence|discriminate]).
   rewrite with_nl_cons by (destruct (dd p); [discriminate|exact Hne']).
   destruct Hh as (Hhn & Hhf & Hhl).
   rewrite strip_nl by assumption. rewrite HPH.
@@ -465,90 +522,69 @@ Proof.
     rewrite with_nl_cons by exact Hne'.
     pose proof (dd_line_ok d Hp Hn Hld) as (_ & Hdf & _).
     rewrite strip_nl by assumption. rewrite Hp. simpl app.
-    rewrite (flat_map_strip (fun l => convert_line l (length (hdr_pre p)) (length (hdr p)) ++ [NL])) by exact HRL.
+    rewrite (flat_map_strip (fun l => convert_line_sep sepc sepp l (length (hdr_pre p)) (length (hdr p)) ++ [NL])) by exact HRL.
     rewrite HCR. reflexivity.
   - simpl app.
-    destruct (with_nl final_nl (map row_line (rows p))) as [|l2 more] eqn:EW.
-    { destruct (map row_line (rows p)) as [|a [|b l]]; [congruence| |]; simpl in EW; [destruct final_nl|]; discriminate. }
+    destruct (with_nl final_nl (map (row_line sepc) (rows p))) as [|l2 more] eqn:EW.
+    { destruct (map (row_line sepc) (rows p)) as [|a [|b l]]; [congruence| |]; simpl in EW; [destruct final_nl|]; discriminate. }
     assert (prefixb DEFAULTDIRECTION (strip l2) = false) as Hnd.
     { pose proof (strip_with_nl final_nl _ HRL) as HS. rewrite EW in HS. simpl in HS.
       destruct (rows p) as [|r rs]; [congruence|]. simpl in HS. injection HS as HS _.
-      rewrite HS. inversion HR as [|? ? Hr _]; subst.
-      destruct (row_fields_ok p r Hr) as [Hrf _].
-      unfold row_line.
-      destruct (pre r ++ prots r ++ post r) as [|f fs] eqn:E.
-      { simpl in Hrf. destruct Hrf as (c & q & Ec & _). discriminate. }
-      rewrite prefixb_join by (intros Hin; simpl in Hin; repeat (destruct Hin as [Hin|Hin]; [discriminate|]); exact Hin).
-      assert (hd [] (pre r ++ prots r) = f) as <-.
-      { destruct Hr as (_ & _ & Hpn & _). destruct (pre r); simpl in *; [|congruence].
-        destruct (prots r); [congruence|simpl in *; congruence]. }
-      exact Hfirst. }
+      rewrite HS. exact Hfirst. }
     rewrite Hnd.
-    change ((convert_line (strip l2) (length (hdr_pre p)) (length (hdr p)) ++ [NL]) ++
-            flat_map (fun l : str => convert_line (strip l) (length (hdr_pre p)) (length (hdr p)) ++ [NL]) more)
-      with (flat_map (fun l : str => (fun l' => convert_line l' (length (hdr_pre p)) (length (hdr p)) ++ [NL]) (strip l)) (l2 :: more)).
+    change ((convert_line_sep sepc sepp (strip l2) (length (hdr_pre p)) (length (hdr p)) ++ [NL]) ++
+            flat_map (fun l : str => convert_line_sep sepc sepp (strip l) (length (hdr_pre p)) (length (hdr p)) ++ [NL]) more)
+      with (flat_map (fun l : str => (fun l' => convert_line_sep sepc sepp l' (length (hdr_pre p)) (length (hdr p)) ++ [NL]) (strip l)) (l2 :: more)).
     rewrite <- EW.
-    rewrite (flat_map_strip (fun l => convert_line l (length (hdr_pre p)) (length (hdr p)) ++ [NL])) by exact HRL.
+    rewrite (flat_map_strip (fun l => convert_line_sep sepc sepp l (length (hdr_pre p)) (length (hdr p)) ++ [NL])) by exact HRL.
     rewrite HCR. reflexivity.
 Qed.
 
-
-Lemma not_in_dd c : c = TAB \/ c = COLON \/ c = NL -> ~ In c DEFAULTDIRECTION.
+Lemma wf_tsv_pin sepc sepp p : wf sepc p -> out_ok sepc sepp p -> wf sepc (tsv_pin sepp p).
 Proof.
-  intros H Hin. simpl in Hin.
-  repeat (destruct Hin as [Hin|Hin]; [destruct H as [H|[H|H]]; rewrite H in Hin; discriminate|]).
-  exact Hin.
-Qed.
-
-Lemma wf_tsv_pin p : wf p -> wf (tsv_pin p).
-Proof.
-  intros (HF & Hnp & Hf & Hl & HR & Hne & Hfirst & Hdd).
+  intros (HF & Hnp & Hf & Hl & HR & Hne & Hfirst & Hdd) (Hsc & Hsn & Hout).
   unfold wf. simpl. repeat split; try assumption.
-  - apply Forall_map. eapply Forall_impl; [|exact HR]. intros r Hr. apply wf_tsv_row; exact Hr.
+  - apply Forall_map. eapply Forall_impl; [|exact HR]. intros r Hr. apply wf_tsv_row; assumption.
   - destruct (rows p); [congruence|discriminate].
-  - destruct (rows p) as [|r rs]; [exact I|]. simpl.
-    inversion HR as [|? ? Hr _]; subst. destruct Hr as (_ & _ & Hpn & _).
-    destruct (pre r) as [|a pr]; [|exact Hfirst]. simpl in *.
-    destruct (prots r) as [|b ps]; [congruence|].
-    rewrite prefixb_join by (apply not_in_dd; auto). exact Hfirst.
+  - destruct (rows p) as [|r rs]; [exact I|]. exact Hout.
 Qed.
 
-Lemma render_tsv_as_pin p : render_tsv p = render_pin true (tsv_pin p).
+Lemma render_tsv_as_pin sepc sepp p : render_tsv sepc sepp p = render_pin sepc true (tsv_pin sepp p).
 Proof.
   unfold render_tsv, render_pin, tsv_lines, pin_lines. simpl. rewrite map_map. reflexivity.
 Qed.
 
-Lemma render_tsv_tsv p : render_tsv (tsv_pin p) = render_tsv p.
+(* converting the converted document again joins one protein: nothing to join *)
+Lemma render_tsv_tsv sepc sepp sepp' p : render_tsv sepc sepp' (tsv_pin sepp p) = render_tsv sepc sepp p.
 Proof.
   unfold render_tsv, tsv_lines. simpl. rewrite map_map. reflexivity.
 Qed.
 
-Theorem convert_idempotent p : wf p -> convert_file (render_tsv p) = Ok (render_tsv p).
+Theorem convert_idempotent sepc sepp p : sepc <> NL -> wf sepc p -> out_ok sepc sepp p ->
+  convert_file_sep sepc sepp (render_tsv sepc sepp p) = Ok (render_tsv sepc sepp p).
 Proof.
-  intros Hwf. rewrite render_tsv_as_pin at 1. rewrite convert_file_ok by (apply wf_tsv_pin; exact Hwf).
+  intros Hs Hwf Hout. rewrite render_tsv_as_pin at 1.
+  rewrite convert_file_ok by (try exact Hs; apply wf_tsv_pin; assumption).
   rewrite render_tsv_tsv. reflexivity.
 Qed.
 
 (* ---------- is_valid ---------- *)
-Lemma nfields_count l : nfields l = S (zcount TAB l).
+Lemma nfields_count sepc l : nfields_sep sepc l = S (zcount sepc l).
 Proof. apply split_length. Qed.
 
-Lemma nfields_nl l : nfields (l ++ [NL]) = nfields l.
-Proof. rewrite !nfields_count, zcount_app. simpl. lia. Qed.
-
-Theorem is_valid_iff txt :
-  is_valid txt = Ok true <->
+Theorem is_valid_iff sepc txt :
+  is_valid_sep sepc txt = Ok true <->
   exists h l2 more, lines_of txt = h :: l2 :: more /\
     prefixb DEFAULTDIRECTION l2 = false /\
-    Forall (fun l => zcount TAB l = zcount TAB h) (l2 :: more).
+    Forall (fun l => zcount sepc l = zcount sepc h) (l2 :: more).
 Proof.
-  unfold is_valid. destruct (lines_of txt) as [|h [|l2 more]].
+  unfold is_valid_sep. destruct (lines_of txt) as [|h [|l2 more]].
   - split; [discriminate|intros (? & ? & ? & ? & _); discriminate].
   - split; [discriminate|intros (? & ? & ? & ? & _); discriminate].
   - destruct (prefixb DEFAULTDIRECTION l2) eqn:Ep.
     { split; [discriminate|]. intros (h' & l2' & more' & E & Hp & _). injection E as <- <- <-. congruence. }
     rewrite !nfields_count.
-    destruct (Nat.eqb_spec (S (zcount TAB l2)) (S (zcount TAB h))) as [E2|E2]; simpl.
+    destruct (Nat.eqb_spec (S (zcount sepc l2)) (S (zcount sepc h))) as [E2|E2]; simpl.
     + split.
       * intros H. injection H as H. exists h, l2, more. split; [reflexivity|]. split; [exact Ep|].
         constructor; [lia|]. apply Forall_forall. intros l Hl.
@@ -567,49 +603,105 @@ Proof.
   change (with_nl true (l :: m :: ls)) with ((l ++ [NL]) :: with_nl true (m :: ls)). rewrite IH. reflexivity.
 Qed.
 
-Theorem valid_output p : wf p -> is_valid (render_tsv p) = Ok true.
+Lemma nl_not_in_dd : ~ In NL DEFAULTDIRECTION.
 Proof.
-  intros Hwf. pose proof (wf_tsv_pin p Hwf) as Hwt.
+  intros Hin. simpl in Hin. repeat (destruct Hin as [Hin|Hin]; [discriminate|]). exact Hin.
+Qed.
+
+Theorem valid_output sepc sepp p : sepc <> NL -> wf sepc p -> out_ok sepc sepp p ->
+  is_valid_sep sepc (render_tsv sepc sepp p) = Ok true.
+Proof.
+  intros Hs Hwf Hout. pose proof (wf_tsv_pin sepc sepp p Hwf Hout) as Hwt.
+  destruct Hout as (Hsc & Hsn & _).
   apply is_valid_iff.
   rewrite render_tsv_as_pin. unfold render_pin.
-  pose proof (header_ok _ Hwt) as Hh. pose proof (rows_lines_ok _ Hwt) as HRL.
-  assert (Forall line_ok (pin_lines (tsv_pin p))) as HL.
+  pose proof (header_ok _ _ Hs Hwt) as Hh. pose proof (rows_lines_ok _ _ Hs Hwt) as HRL.
+  assert (Forall line_ok (pin_lines sepc (tsv_pin sepp p))) as HL.
   { unfold pin_lines. simpl. constructor; assumption. }
   rewrite lines_render by (eapply Forall_impl; [|exact HL]; intros l; apply line_ok_render).
   rewrite with_nl_true. unfold pin_lines. simpl dd. cbn [app map].
   destruct Hwt as (HF & Hnp & Hf & Hl & HR & Hne & Hfirst & _).
-  destruct (rows (tsv_pin p)) as [|r rs] eqn:ER; [congruence|].
+  destruct (rows (tsv_pin sepp p)) as [|r rs] eqn:ER; [congruence|].
   cbn [map]. eexists _, _, _. split; [reflexivity|]. split.
-  - inversion HR as [|? ? Hr _]; subst. destruct (row_fields_ok _ _ Hr) as [Hrf _].
-    unfold row_line.
-    destruct (pre r ++ prots r ++ post r) as [|f fs] eqn:E.
-    { simpl in Hrf. destruct Hrf as (c & q & Ec & _). discriminate. }
-    destruct fs as [|g fs].
-    + simpl join. replace (f ++ [NL]) with (f ++ NL :: []) by reflexivity.
-      rewrite prefixb_field by (apply not_in_dd; auto).
-      assert (hd [] (pre r ++ prots r) = f) as <-; [|exact Hfirst].
-      destruct Hr as (_ & _ & Hpn & _). destruct (pre r); simpl in *; [|congruence].
-      destruct (prots r); [congruence|simpl in *; congruence].
-    + change (join TAB (f :: g :: fs)) with (f ++ TAB :: join TAB (g :: fs)). rewrite <- app_assoc.
-      simpl app. rewrite prefixb_field by (apply not_in_dd; auto).
-      assert (hd [] (pre r ++ prots r) = f) as <-; [|exact Hfirst].
-      destruct Hr as (_ & _ & Hpn & _). destruct (pre r); simpl in *; [|congruence].
-      destruct (prots r); [congruence|simpl in *; congruence].
-  - assert (Forall (fun r' => wf_row (tsv_pin p) r' /\ length (prots r') = 1%nat) (r :: rs)) as HR1.
+  - replace (row_line sepc r ++ [NL]) with (row_line sepc r ++ NL :: []) by reflexivity.
+    rewrite prefixb_field by exact nl_not_in_dd. exact Hfirst.
+  - assert (Forall (fun r' => wf_row sepc (tsv_pin sepp p) r' /\ length (prots r') = 1%nat) (r :: rs)) as HR1.
     { rewrite <- ER. simpl. apply Forall_map. destruct Hwf as (_ & _ & _ & _ & HR0 & _).
-      eapply Forall_impl; [|exact HR0]. intros r0 Hr0. split; [apply wf_tsv_row; exact Hr0|reflexivity]. }
-    assert (forall r', wf_row (tsv_pin p) r' /\ length (prots r') = 1%nat ->
-              zcount TAB (row_line r' ++ [NL]) = zcount TAB (join TAB (hdr (tsv_pin p)) ++ [NL])) as Hcnt.
+      eapply Forall_impl; [|exact HR0]. intros r0 Hr0. split; [apply wf_tsv_row; assumption|reflexivity]. }
+    assert (forall r', wf_row sepc (tsv_pin sepp p) r' /\ length (prots r') = 1%nat ->
+              zcount sepc (row_line sepc r' ++ [NL]) = zcount sepc (join sepc (hdr (tsv_pin sepp p)) ++ [NL])) as Hcnt.
     { intros r' [(HFr & Hpre & Hpn & Hpost & _) Hone].
       rewrite !zcount_app. f_equal.
       apply Nat.succ_inj. unfold row_line. rewrite !zcount_join.
       - unfold hdr. rewrite !app_length. simpl in *. lia.
       - eapply Forall_impl; [|exact HF]. intros f [H _]; exact H.
-      - unfold hdr. destruct (hdr_pre (tsv_pin p)); discriminate.
+      - unfold hdr. destruct (hdr_pre (tsv_pin sepp p)); discriminate.
       - eapply Forall_impl; [|exact HFr]. intros f [H _]; exact H.
       - destruct (pre r'); [destruct (prots r'); [congruence|discriminate]|discriminate]. }
-    change ((row_line r ++ [NL]) :: map (fun l => l ++ [NL]) (map row_line rs))
-      with (map (fun l => l ++ [NL]) (map row_line (r :: rs))).
+    change ((row_line sepc r ++ [NL]) :: map (fun l => l ++ [NL]) (map (row_line sepc) rs))
+      with (map (fun l => l ++ [NL]) (map (row_line sepc) (r :: rs))).
     rewrite map_map. apply Forall_map.
     eapply Forall_impl; [|exact HR1]. intros r' Hr'. apply Hcnt. exact Hr'.
+Qed.
+
+(* ---------- a sufficient, field-level condition for the two "DefaultDirection" clauses ---------- *)
+(* If the column separator is not a letter of "DefaultDirection" and the first field of the first
+   PSM does not start with "DefaultDirection", then the PSM line does not either (clause of [wf]);
+   the converted line does not either (clause of [out_ok]) provided the first field is not the
+   protein field, or there is one protein, or the protein separator starts with a character that
+   is not a letter of "DefaultDirection". *)
+Lemma dd_clause_line sepc r :
+  ~ In sepc DEFAULTDIRECTION -> prots r <> [] ->
+  prefixb DEFAULTDIRECTION (hd [] (pre r ++ prots r)) = false ->
+  prefixb DEFAULTDIRECTION (row_line sepc r) = false.
+Proof.
+  intros Hs Hne Hf. unfold row_line.
+  destruct (pre r) as [|a pr].
+  - destruct (prots r) as [|b ps]; [congruence|]. simpl app. simpl hd in Hf.
+    rewrite prefixb_join by exact Hs. exact Hf.
+  - simpl app. simpl hd in Hf. rewrite prefixb_join by exact Hs. exact Hf.
+Qed.
+
+Lemma dd_clause_tsv sepc sepp r :
+  ~ In sepc DEFAULTDIRECTION -> prots r <> [] ->
+  prefixb DEFAULTDIRECTION (hd [] (pre r ++ prots r)) = false ->
+  (pre r <> [] \/ length (prots r) = 1%nat \/ exists c s, sepp = c :: s /\ ~ In c DEFAULTDIRECTION) ->
+  prefixb DEFAULTDIRECTION (row_tsv sepc sepp r) = false.
+Proof.
+  intros Hs Hne Hf Hcase. unfold row_tsv.
+  destruct (pre r) as [|a pr].
+  - destruct (prots r) as [|b ps]; [congruence|]. simpl app. simpl hd in Hf.
+    rewrite prefixb_join by exact Hs.
+    destruct ps as [|b2 ps]; [exact Hf|].
+    destruct Hcase as [Hc|[Hc|(c & s & -> & Hc)]]; [congruence|simpl in Hc; lia|].
+    simpl app. rewrite prefixb_field by exact Hc. exact Hf.
+  - simpl app. simpl hd in Hf. rewrite prefixb_join by exact Hs. exact Hf.
+Qed.
+
+(* ---------- the default separators (sep_column="\t", sep_protein=":"), as used by Model/Fs.v ---------- *)
+Lemma convert_file_default_ok final_nl p : wf TAB p ->
+  convert_file (render_pin TAB final_nl p) = Ok (render_tsv TAB [COLON] p).
+Proof. intros Hwf. unfold convert_file. apply convert_file_ok; [discriminate|exact Hwf]. Qed.
+
+Lemma is_valid_default_iff txt :
+  is_valid txt = Ok true <->
+  exists h l2 more, lines_of txt = h :: l2 :: more /\
+    prefixb DEFAULTDIRECTION l2 = false /\
+    Forall (fun l => zcount TAB l = zcount TAB h) (l2 :: more).
+Proof. unfold is_valid. apply is_valid_iff. Qed.
+
+Lemma default_out_ok p : wf TAB p ->
+  match rows p with
+  | r :: _ => prefixb DEFAULTDIRECTION (hd [] (pre r ++ prots r)) = false
+  | [] => True
+  end -> out_ok TAB [COLON] p.
+Proof.
+  intros (_ & _ & _ & _ & HR & _) Hf.
+  split; [intros [H|[]]; discriminate|]. split; [intros [H|[]]; discriminate|].
+  destruct (rows p) as [|r rs]; [exact I|].
+  inversion HR as [|? ? (_ & _ & Hne & _) _]; subst.
+  apply dd_clause_tsv; [|exact Hne|exact Hf|].
+  - intros Hin. simpl in Hin. repeat (destruct Hin as [Hin|Hin]; [discriminate|]). exact Hin.
+  - right. right. exists COLON, []. split; [reflexivity|].
+    intros Hin. simpl in Hin. repeat (destruct Hin as [Hin|Hin]; [discriminate|]). exact Hin.
 Qed.
